@@ -316,6 +316,20 @@ class Env:
         self.json = falcon.media.JSONHandler()
         env = self
 
+        def do_steps(resp, steps, asgi):
+            """sync part of a construction script; 'render' is handled by the callers"""
+            for st in steps:
+                if st[0] == 'text':
+                    resp.text = st[1]
+                elif st[0] == 'data':
+                    resp.data = st[1]
+                elif st[0] == 'media':
+                    resp.media = st[1]
+                elif st[0] == 'ctype':
+                    resp.content_type = st[1]
+                else:
+                    yield resp
+
         def fill(resp, asgi):
             c = env.cell
             resp.status = status_value(c['status'])
@@ -342,12 +356,35 @@ class Env:
         class Res:
             def on_get(self, req, resp):
                 fill(resp, False)
+                c = env.cell
+                if c.get('steps') is not None:
+                    for r in do_steps(resp, c['steps'][:c['mw_from']], False):
+                        r.render_body()
             on_head = on_post = on_get
 
         class ARes:
             async def on_get(self, req, resp):
                 fill(resp, True)
+                c = env.cell
+                if c.get('steps') is not None:
+                    for r in do_steps(resp, c['steps'][:c['mw_from']], True):
+                        await r.render_body()
             on_head = on_post = on_get
+
+        class LateMW:
+            """a middleware that goes on building (and peeking at) the response"""
+            def process_response(self, req, resp, resource, req_succeeded):
+                c = env.cell
+                if c.get('steps') is not None:
+                    for r in do_steps(resp, c['steps'][c['mw_from']:], False):
+                        r.render_body()
+
+        class ALateMW:
+            async def process_response(self, req, resp, resource, req_succeeded):
+                c = env.cell
+                if c.get('steps') is not None:
+                    for r in do_steps(resp, c['steps'][c['mw_from']:], True):
+                        await r.render_body()
 
         class MyResp(falcon.Response):
             pass
@@ -358,10 +395,12 @@ class Env:
         for asgi in (0, 1):
             for custom in (0, 1):
                 if asgi:
-                    app = falcon.asgi.App(response_type=MyAResp) if custom else falcon.asgi.App()
+                    app = falcon.asgi.App(response_type=MyAResp, middleware=[ALateMW()]) if custom \
+                        else falcon.asgi.App(middleware=[ALateMW()])
                     app.add_route('/', ARes())
                 else:
-                    app = falcon.App(response_type=MyResp) if custom else falcon.App()
+                    app = falcon.App(response_type=MyResp, middleware=[LateMW()]) if custom \
+                        else falcon.App(middleware=[LateMW()])
                     app.add_route('/', Res())
                 self.apps[(asgi, custom)] = app
 
@@ -377,6 +416,20 @@ class Env:
         sse = []
         if c['sse'] is not None and c['asgi']:
             sse = [[(falcon.asgi.SSEvent() if e is None else falcon.asgi.SSEvent(**e)).serialize() for e in c['sse']]]
+        if c.get('steps') is not None:
+            steps = []
+            for st in c['steps']:
+                if st[0] == 'text':
+                    steps.append([0, o(None if st[1] is None else st[1].encode('utf-8'))])
+                elif st[0] == 'data':
+                    steps.append([1, o(st[1])])
+                elif st[0] == 'media':
+                    steps.append([2, o(None if st[1] is None else self.json.serialize(st[1], 'application/json'))])
+                elif st[0] == 'ctype':
+                    steps.append([3, o(st[1])])
+                else:
+                    steps.append([4])
+            return [steps, c['method'] == 'HEAD', c['status'], stream, o(c['clen']), c['wrapper']]
         return [c['method'] == 'HEAD', c['status'], o(text), o(c['data']), o(media), stream, sse,
                 o(c['clen']), o(c['ctype']), c['wrapper']]
 
@@ -426,7 +479,8 @@ def run_cells(ctx, model, env, cells, label):
         asyncio.run(go())
     # ---- the model
     wires = [env.wire(c) for c in cells]
-    mcases = [[1, w, [] if c['fail_at'] is None else [c['fail_at']]] if c['asgi'] else [0, 1, w]
+    off = lambda c: 10 if c.get('steps') is not None else 0
+    mcases = [[1 + off(c), w, [] if c['fail_at'] is None else [c['fail_at']]] if c['asgi'] else [0 + off(c), 1, w]
               for c, w in zip(cells, wires)]
     outs = model.run_many(mcases)
     ocases, oidx = [], []
@@ -435,11 +489,15 @@ def run_cells(ctx, model, env, cells, label):
         ctx.count('asgi' if c['asgi'] else 'wsgi')
         key = json.dumps(cell_json(c), sort_keys=True)
         ctx.note_case(key, c['text'] is not None or c['data'] is not None or c['media'] is not None
-                      or c['stream'] is not None or c['sse'] is not None or c['method'] == 'HEAD')
+                      or c['stream'] is not None or c['sse'] is not None or c['method'] == 'HEAD'
+                      or bool(c.get('steps')))
+        if c.get('steps') is not None:
+            ctx.count('built-in-steps')
         if o[0] == 'protocol':
             ctx.violation('protocol-violation', {'cell': cell_json(c), 'what': o[1]}, key='proto-%d' % c['asgi'])
             continue
-        media_only = c['media'] is not None and c['text'] is None and c['data'] is None and not c['ctype']
+        media_only = (c['media'] is not None and c['text'] is None and c['data'] is None and not c['ctype']) \
+            or (c.get('steps') is not None and any(st[0] == 'media' for st in c['steps']))
         if m[0] == 1 and m[-1] and not (m[-1] == [5] and media_only):   # [5] there = known finding (refuted theorem)
             ctx.violation('model-fails-own-oracle', {'cell': cell_json(c), 'model': repr(m)}, found_input=False,
                           key='model-oracle')
@@ -462,9 +520,9 @@ def run_cells(ctx, model, env, cells, label):
             except ProtocolError as e:
                 ctx.violation('protocol-violation', {'cell': cell_json(c), 'what': str(e)}, key='proto-dup')
                 continue
-            ocases.append([3, w, evs, o[2], o[3], o[4]])
+            ocases.append([3 + off(c), w, evs, o[2], o[3], o[4]])
         else:
-            ocases.append([2, w, o[1], [] if o[2] is None else [o[2]], [] if o[3] is None else [o[3]],
+            ocases.append([2 + off(c), w, o[1], [] if o[2] is None else [o[2]], [] if o[3] is None else [o[3]],
                            o[4], o[5], o[6], o[7]])
         oidx.append(n)
     fails = model.run_many(ocases)
@@ -476,7 +534,7 @@ def run_cells(ctx, model, env, cells, label):
         if f[1]:
             detail = {'cell': cell_json(c), 'impl': repr(o), 'clauses_failed': f[1],
                       'clause_names': {str(k): names[k] for k in f[1]}}
-            if f[1] == [5] and c['media'] is not None and c['text'] is None and c['data'] is None and not c['ctype']:
+            if f[1] == [5] and media_only_cell(c):
                 # the only body source is resp.media: rendering it sets resp.content_type
                 ctx.violation('typeless-media-content-type', detail, key='typeless-media-%d' % c['asgi'])
             else:
@@ -497,6 +555,67 @@ def run_cells(ctx, model, env, cells, label):
                                                     'broken': 'C05.%s_emit_corr' % ('asgi' if c['asgi'] else 'wsgi')},
                           found_input=False, key='corr-%d' % c['asgi'])
     return obs
+
+
+def media_only_cell(c):
+    """the content type was (or may have been) set by render_body() while rendering resp.media"""
+    if c.get('steps') is not None:
+        return any(st[0] == 'media' for st in c['steps'])
+    return c['media'] is not None and c['text'] is None and c['data'] is None and not c['ctype']
+
+
+STEP_TEXTS = [None, '', 'late text', 'naïve ☃']
+STEP_DATAS = [None, b'', b'late-data', b'\x00\xfe']
+STEP_MEDIAS = [None, {'first': 1}, {'second': [1, 2]}, [], 'm']
+
+
+def gen_steps(rng):
+    """a response-construction script: assignments to text/data/media/content_type interleaved
+    with early render_body() calls, split between the responder and a middleware"""
+    n = rng.randint(1, 7)
+    steps = []
+    for _ in range(n):
+        k = rng.random()
+        if k < 0.3:
+            steps.append(['render'])
+        elif k < 0.55:
+            steps.append(['media', rng.choice(STEP_MEDIAS)])
+        elif k < 0.75:
+            steps.append(['data', rng.choice(STEP_DATAS)])
+        elif k < 0.9:
+            steps.append(['text', rng.choice(STEP_TEXTS)])
+        else:
+            steps.append(['ctype', rng.choice([None, 'application/json'])])
+    return steps
+
+
+def gen_step_cell(rng, asgi):
+    c = gen_cell(rng, asgi)
+    steps = gen_steps(rng)
+    c.update(text=None, data=None, media=None, ctype=None, sse=None, steps=steps,
+             mw_from=rng.randint(0, len(steps)))
+    if c['fail_at'] is not None and c['stream'] is None:
+        c['fail_at'] = rng.choice([None, 0, 1, 2])
+    return c
+
+
+def step_matrix():
+    """every script of <= 3 steps over {media A, media B, data, text, data=None, render} on both
+    interfaces, GET and HEAD, rendered in the responder or in the middleware"""
+    alphabet = [['media', {'first': 1}], ['media', {'second': [1, 2]}], ['data', b'late-data'], ['text', 'late text'],
+                ['data', None], ['render']]
+    base = {'status': [0, 200], 'text': None, 'data': None, 'media': None, 'stream': None, 'sse': None,
+            'clen': None, 'ctype': None, 'wrapper': 0, 'custom_resp': 0, 'fail_at': None}
+    for n in (1, 2, 3):
+        for steps in itertools.product(alphabet, repeat=n):
+            if ['render'] not in steps:
+                continue
+            for asgi in (0, 1):
+                for custom in (0, 1):
+                    yield dict(base, asgi=asgi, method='GET', custom_resp=custom, steps=[list(x) for x in steps],
+                               mw_from=n if custom else max(0, n - 1))
+            yield dict(base, asgi=1, method='HEAD', steps=[list(x) for x in steps], mw_from=0)
+            yield dict(base, asgi=0, method='HEAD', steps=[list(x) for x in steps], mw_from=n)
 
 
 def fault_matrix():
@@ -548,6 +667,9 @@ def main(ctx):
     quick = ctx.tier == 'quick'
     run_cells(ctx, model, env, list(status_matrix()), 'status-matrix')
     run_cells(ctx, model, env, list(fault_matrix()), 'fault-matrix')
+    run_cells(ctx, model, env, list(step_matrix()), 'step-matrix')
+    ns = 5000 if quick else 60000
+    run_cells(ctx, model, env, [gen_step_cell(ctx.rng, ctx.rng.random() < 0.5) for _ in range(ns)], 'random-steps')
     n = 20000 if quick else 200000
     cells = [gen_cell(ctx.rng, ctx.rng.random() < 0.5) for _ in range(n)]
     for i in range(0, n, 20000):
